@@ -1,8 +1,7 @@
 """C01 Scheduling rewrites preserve procedure semantics (see DESIGN.md section 3/C01)."""
 
-from ..stream import StreamProfile, run_stream, EquivMonitor, rebuild
+from ..stream import StreamProfile, run_stream, EquivMonitor
 from ..gen_prog import Knobs
-from ..gen_sched import apply_step, is_unsafe_step
 from .. import equiv
 from ..gen_input import InputSpec
 
@@ -67,36 +66,12 @@ def finish(agg, tier):
 
 
 def replay(case):
-    import tempfile, pathlib, shutil, random
+    from ..stream_driver import replay_through
 
-    scratch = pathlib.Path(tempfile.mkdtemp(prefix="vf_replay_"))
-    try:
-        sess, last = rebuild(case, scratch)
-        old = sess.cur
-        r = apply_step(sess, last)
-        if r.status != "accepted":
-            return {"reproduced": False, "detail": f"step rejected now: {r.exc!r}"}
-        old_ir, new_ir = old._loopir_proc, r.proc._loopir_proc
-        if case.get("monitor") == "equiv-e2e":
-            old_ir = sess.procs[case.get("root_idx", 0)]._loopir_proc
-        _, mf = equiv.reported_mod_fields(old_ir, new_ir)
-        spec = InputSpec.from_json(case["input"]) if case.get("input") else None
-        if spec is not None:
-            c = equiv.compare_on(old_ir, new_ir, spec, mf)
-            verdict, wit = c.status, c.detail
-        else:
-            j = equiv.judge(old_ir, new_ir, random.Random(0), 12, mf)
-            verdict, wit = j["verdict"], j["witness"]
-        from ..stream import ir_features, diagnose
-
-        sig = {"prop": "C01", "monitor": case.get("monitor", "equiv"), "kind": verdict, "op": last["op"], "features": ir_features(old_ir)}
-        d = diagnose(last["op"], old_ir, new_ir, last, sess)
-        if d:
-            sig["diag"] = d
-        return {
-            "reproduced": verdict == "diff",
-            "sig": sig,
-            "detail": f"op={last['op']} verdict={verdict}\nwitness={wit}\n--- before ---\n{old}\n--- after ---\n{r.proc}",
-        }
-    finally:
-        shutil.rmtree(scratch, ignore_errors=True)
+    spec = InputSpec.from_json(case["input"]) if case.get("input") else None
+    want = case.get("inner_op")
+    return replay_through(
+        case,
+        lambda ctx, c: [EquivMonitor(ctx, ninputs=12, end_to_end=False, forced_spec=spec)],
+        match=(lambda sig: sig.get("op") == want) if want else None,
+    )
